@@ -126,6 +126,9 @@ def items(src, lo=0, hi=None):
         if k >= n:
             break
         attrs_end = spans[k][1]
+        # `use` items contain braces that are not a body: they end at the ';'
+        words = [seg[a_:b_] for (kd_, a_, b_) in spans[k:k + 8] if kd_ == 'word']
+        is_use = bool(words) and (words[0] == 'use' or (words[0] == 'pub' and 'use' in words[1:3]))
         # header: up to first '{' or ';' at bracket depth 0 (parens/brackets only)
         depth = 0
         j = k
@@ -136,6 +139,8 @@ def items(src, lo=0, hi=None):
                 ch = seg[a]
                 if ch in '([': depth += 1
                 elif ch in ')]': depth -= 1
+                elif ch == '{' and depth == 0 and is_use:
+                    j = match_close(seg, spans, j)
                 elif ch == '{' and depth == 0:
                     body_open = a
                     jc = match_close(seg, spans, j)
